@@ -449,8 +449,8 @@ INVARIANTS = ["ShapeOK", "FoldDecomposes", "MeanDecomposes", "VarDecomposes", "I
               "VCNormalized", "TopDecomposes", "CountPlusNA", "MeanWithin", "VarNonNeg", "SemIsVarOverN", "RowwiseOfOneColumn"]
 
 
-def enumerate_cases(ctx, fills, label="design+cases", maxparts=4, mincounts="{0, 2}", ddofs="{0, 1}", ns="{1, 2, 3, 7}"):
-    consts = {"Fills": TLA("{" + ", ".join(T.tla_value(f) for f in fills) + "}"), "MaxParts": maxparts,
+def enumerate_cases(ctx, fills, label="design+cases", maxparts=4, designparts=4, mincounts="{0, 2}", ddofs="{0, 1}", ns="{1, 2, 3, 7}"):
+    consts = {"Fills": TLA("{" + ", ".join(T.tla_value(f) for f in fills) + "}"), "MaxParts": maxparts, "DesignParts": designparts,
               "MinCounts": TLA(mincounts), "Ddofs": TLA(ddofs), "Ns": TLA(ns)}
     spec, cfg = ctx.model(ctx.spec("frame", "FrameReductionsMC.tla"), consts, invariants=INVARIANTS)
     out, r = ctx.tlc_cases(spec, cfg, label=label, timeout=3000)
@@ -632,7 +632,8 @@ def run(ctx):
     dd()
     thorough = not ctx.quick
     fills = make_fills(ctx)
-    cases, layouts, _ = enumerate_cases(ctx, fills, ddofs=ctx.pick("{0, 1}", "{0, 1, 2}"), mincounts=ctx.pick("{0, 2}", "{0, 1, 3}"))
+    cases, layouts, _ = enumerate_cases(ctx, fills, designparts=ctx.pick(3, 4), ddofs=ctx.pick("{0, 1}", "{0, 1, 2}"),
+                                        mincounts=ctx.pick("{0, 2}", "{0, 1, 3}"))
     items, total_pairs, sampled = pair_items(ctx, cases, layouts, ctx.pick(4200, 110000), thorough)
     replay_cases(ctx, items)
     for fam in ("fold", "rat", "idx", "vc", "top"):
